@@ -198,10 +198,10 @@ impl<L: Language> ReferentRule<L> {
 
   /// Whether the rule referred to reaches the utility `id` again.
   /// Utils of several maps (rule, rewriters) share one registration, a cycle can span them.
-  pub(super) fn refers_to(&self, id: &str) -> bool {
+  pub(super) fn refers_to(&self, id: &str, visited: &mut HashSet<String>) -> bool {
     self
-      .eval_local(|r| r.check_cyclic(id))
-      .or_else(|| self.eval_global(|r| r.check_cyclic(id)))
+      .eval_local(|r| r.check_cyclic_impl(id, visited))
+      .or_else(|| self.eval_global(|r| r.check_cyclic_impl(id, visited)))
       .unwrap_or(false)
   }
 
